@@ -225,13 +225,28 @@ class Simplifier(walkers.dag.DagWalker):
                             and variable.variable() not in value_free_vars
                             # the value must denote an element of the variable's domain
                             and variable.type.is_compatible(value.type)
+                            # no variable of the value may be captured by a quantifier of the body
+                            and value_free_vars.isdisjoint(
+                                _quantified_variables(new_arg)
+                            )
                         ):
                             check_equality_simplification = True
                             new_arg = self.manager.And(
                                 *(a for j, a in enumerate(new_arg.args) if i != j)
                             )
                             new_arg = new_arg.substitute({variable: value})
+                            # the substitution can enable further simplifications
+                            # (o == o, duplicated conjuncts, ...); a fresh instance
+                            # is needed because DagWalker.walk is not re-entrant
+                            new_arg = self.__class__(
+                                self.environment, self.problem
+                            ).simplify(new_arg)
                             vars.remove(variable.variable())
+                            vars.intersection_update(
+                                self.environment.free_vars_oracle.get_free_variables(
+                                    new_arg
+                                )
+                            )
                             break
         if vars:
             return self.manager.Exists(new_arg, *vars)
